@@ -76,4 +76,16 @@ TEXTS = {
         "note": "trusted: Lean kernel + audited axioms; the host stamps physical timestamps (compared by predicate only). Known finding O7 (overlay setters on lower-only entries report not-found) is reported from its witness.",
         "technique": "Lean 4 proof over hand-written model + differential correspondence check",
     },
+    "C01": {
+        "level": "Lean 4 theorems: the operation contract is stated on the reference model (create_dir, remove_file: success exactly under the documented precondition, exact effect with frame, failure leaves the tree unchanged, not-found for a target missing from an existing directory, file-exists/directory-exists for an occupied create_dir) and carried to the in-memory backend by the agreement theorems of C02 for all five mutating primitives; failed primitives leave the in-memory map unchanged; altroot methods are the operations on P++q (C07). PARTIAL: the contract lemmas for write/append/remove_dir on the reference model itself are implied by their definitions and not restated; overlay-vs-union is C09; composite operations C11. All 13 configurations (memory, physical, altroot, overlays 1-3 layers with pre-populated layers, stackings) are compared on EVERY step with a model-only reference tree holding the abstract content, by the tree stream.",
+        "design_ref": "DESIGN.md §6 C01",
+        "note": "trusted: Lean kernel + audited axioms; models tied by the tree stream; the physical model (host answers) is an assumption validated against the real host",
+        "technique": "Lean 4 proof (refinement to a reference tree) over hand-written model + differential correspondence check",
+    },
+    "C02": {
+        "level": "Lean 4 theorems: the path-layer primitives over MemoryFS (proved equal to what the generic VfsPath code computes on the memory leaf) and over the physical model agree, for every well-formed map, every content-equal physical map and EVERY absolute path string — wrong-type targets, missing parents, paths below files — on success/failure, on not-found/file-exists/directory-exists, and produce content-equal maps; all observers agree; by induction every finite history from the empty filesystem. Tied to the code by the lock-step stream: the same generated sequence on the real MemoryFS and the real PhysicalFS compared directly (outcome per call, snapshot per step), and both against the model.",
+        "design_ref": "DESIGN.md §6 C02",
+        "note": "trusted: Lean kernel + audited axioms; the physical model is the host's behaviour as tabulated (assumption validated on every run against the host); timestamps and message texts are outside the property",
+        "technique": "Lean 4 proof (simulation between two models, induction over histories) + direct differential test of the two real backends",
+    },
 }
